@@ -77,7 +77,7 @@ def sites(text):
         if isinstance(n, ast.Name) and isinstance(n.ctx, ast.Load):
             k = len(n.id)
             out.append(('name', n, [(n.lineno, n.col_offset + j) for j in sorted(set((1, k // 2 or 1, k)))]))
-        elif isinstance(n, ast.Attribute) and isinstance(n.ctx, ast.Load) and n.end_lineno == n.lineno:
+        elif isinstance(n, ast.Attribute) and isinstance(n.ctx, (ast.Load, ast.Store)) and n.end_lineno == n.lineno:
             k = len(n.attr)
             start = n.end_col_offset - k
             out.append(('attr', n, [(n.lineno, start + j) for j in sorted(set((0, 1, k)))]))
